@@ -3,7 +3,7 @@
 # with it and passes without it.  usage: confirm_seeds.sh <seed dir> [...]   (each dir holds patch.diff + demo.cpp)
 # Writes <seed dir>/confirm.json.  Scratch worktree: /tmp/wt_confirm (created on first use, removed by the caller).
 WT=/tmp/wt_confirm
-if [ ! -d $WT ]; then /tmp/mk_wt.sh confirm >/dev/null 2>&1 || { echo "cannot create worktree"; exit 2; }; fi
+if [ ! -d $WT ]; then sh /verif/selftest/mk_wt.sh confirm >/dev/null 2>&1 || { echo "cannot create worktree"; exit 2; }; fi
 LIBS="$WT/cola/libdialect/.libs/libdialect.a $WT/cola/libtopology/.libs/libtopology.a $WT/cola/libcola/.libs/libcola.a $WT/cola/libavoid/.libs/libavoid.a $WT/cola/libvpsc/.libs/libvpsc.a"
 for D in "$@"; do
   [ -f "$D/patch.diff" ] || continue
